@@ -116,3 +116,11 @@ CHECKS["C18"] = (
     "Trusted: torch.compile backends 'eager'/'aot_eager' preserve eager numerics (the property's premise). inductor / CUDA graphs cannot run here.",
     "DESIGN.md 3 C18",
 )
+
+CHECKS["C06"] = (
+    "exploration",
+    "runtime monitoring on simulated ranks: the real DDP distributor/optimizer run on 1-8 rank threads (torch threaded process group, real DeviceMesh/DTensor) under a collective ledger with logical deadlock detector, replica bit-equality, serial twin, and an exact rounding model of the communicated quantity",
+    "260 configurations x 2 interleavings quick (3000 x 4 thorough, plus 12 real gloo multi-process runs): world sizes 1..8, every divisor group size, communicate_params on/off, DEFAULT/FP32/FP16/BF16, float32/float64 parameters, generated optimizer configurations, presence patterns that starve ranks. Per step: all replicas bit-identical; exact communication => bit-identical to a free-running serial twin; reduced precision => each owner's update (captured at the public update_params argument) equals the re-synchronised serial twin's update bit for bit, every block has exactly one owner per group, and every parameter equals W_old + cast(u) (updates) or cast(W_old+u) (parameters) exactly. Ledger: every rank's sequence of new_group calls and, per group, of (op, bytes, dtype, iteration) must be identical; a logical detector (no timing) reports a stuck rank as soon as no rank can progress while a collective is incomplete. Evidence counts collectives logged and distinct arrival-order signatures. Sampled schedules.",
+    "Trusted: torch's threaded process group as a faithful stand-in for collectives semantics (cross-checked by gloo runs in the thorough tier); per-thread get_device_mesh cache models per-process state; sleeps are injected only at the collective / group-creation wrappers.",
+    "DESIGN.md 2 E5, 3 C06",
+)
